@@ -424,6 +424,11 @@ func classifyProc(d string) string {
 // ---- racing Opens on a fresh directory (SCHED, I/O calls are schedule points) ----------------------
 
 func c16RaceTask(nThreads, pb int, prepopulated bool) func(res *TaskResult) {
+	return c16RaceTaskH(nThreads, pb, prepopulated, false)
+}
+
+// c16RaceTaskH: withHolder adds a thread that holds the directory open and Closes it while the others Open.
+func c16RaceTaskH(nThreads, pb int, prepopulated, withHolder bool) func(res *TaskResult) {
 	return func(res *TaskResult) {
 		debug.SetGCPercent(-1)
 		defer debug.SetGCPercent(400)
@@ -453,6 +458,13 @@ func c16RaceTask(nThreads, pb int, prepopulated bool) func(res *TaskResult) {
 					db, err := kv.Open(defaultCfg.options(dir))
 					dbs[i], errs[i] = db, procErrClass(err)
 				}
+			}
+			if withHolder {
+				hdb, err := kv.Open(defaultCfg.options(dir))
+				if err != nil {
+					return &ExecResult{OpenErr: err.Error()}
+				}
+				fns = append(fns, func() { hdb.Close() })
 			}
 			iorec.SchedPoints = true
 			ex.Sched = sched.Run(prefix, fns...)
@@ -499,7 +511,7 @@ func c16RaceTask(nThreads, pb int, prepopulated bool) func(res *TaskResult) {
 				bad = fmt.Sprintf("%d racing Opens of one directory all succeeded", ok)
 			case ok+using != len(ex.Calls):
 				bad = "a racing Open failed with an error other than ErrDatabaseIsUsing: " + out
-			case ok == 0:
+			case ok == 0 && !withHolder:
 				bad = "every racing Open was rejected: " + out
 			}
 			for _, p := range ex.Sched.Panics {
@@ -509,7 +521,7 @@ func c16RaceTask(nThreads, pb int, prepopulated bool) func(res *TaskResult) {
 			}
 			if bad != "" {
 				res.Violations = append(res.Violations, Violation{Prop: "C16", Clause: "racing-opens", Sig: "racing-opens:" + firstWord(bad),
-					Detail: fmt.Sprintf("%d goroutines open the same %s directory\nschedule: %s\n%s", nThreads, map[bool]string{true: "pre-populated", false: "fresh"}[prepopulated], describeSchedule(ex), bad),
+					Detail: fmt.Sprintf("%d goroutines open the same %s directory (holder closing concurrently: %v)\nschedule: %s\n%s", nThreads, map[bool]string{true: "pre-populated", false: "fresh"}[prepopulated], withHolder, describeSchedule(ex), bad),
 					Replay: mustJSON(map[string]any{"engine": "sched-open", "property": "C16", "threads": nThreads, "prepopulated": prepopulated, "schedule": ex.Sched.Choices})})
 				return false
 			}
@@ -525,7 +537,7 @@ func c16RaceTask(nThreads, pb int, prepopulated bool) func(res *TaskResult) {
 			res.Nontrivial++
 		}
 		res.count("max:schedules_per_scenario", int64(n))
-		res.Samples = append(res.Samples, fmt.Sprintf("%d racing Opens (prepopulated=%v), every file-system / flock call a schedule point, PB<=%d: %d schedules, outcomes %v", nThreads, prepopulated, pb, n, sortedKeys(outcomes)))
+		res.Samples = append(res.Samples, fmt.Sprintf("%d racing Opens (prepopulated=%v, holder closing concurrently=%v), every file-system / flock call and the open/flock window a schedule point, PB<=%d: %d schedules, outcomes %v", nThreads, prepopulated, withHolder, pb, n, sortedKeys(outcomes)))
 	}
 }
 
@@ -553,6 +565,9 @@ func init() {
 				{Level: fmt.Sprintf("racing-opens-2-pb%d", pb), Name: "racing opens 2 populated", Fn: c16RaceTask(2, pb, true)},
 				{Level: "racing-opens-3-pb-unbounded", Name: "racing opens 3 fresh", Fn: c16RaceTask(3, -1, false)},
 				{Level: "racing-opens-3-pb-unbounded", Name: "racing opens 3 populated", Fn: c16RaceTask(3, -1, true)},
+				{Level: "close-vs-opens", Name: "holder closes while 1 opens", Fn: c16RaceTaskH(1, -1, true, true)},
+				{Level: "close-vs-opens", Name: "holder closes while 2 open", Fn: c16RaceTaskH(2, -1, true, true)},
+				{Level: "close-vs-opens", Name: "holder closes while 3 open", Fn: c16RaceTaskH(3, 3, true, true)},
 			}
 		},
 		Bounds: func(tier string) map[string]any {
